@@ -86,6 +86,11 @@ CHECKS = {
          "For transactions staging 1..3 new or existing branches, every sequence of up to 2 (thorough 3) commit/discard operations is run with no fault, with an injected error at store write #k and with a simulated process death before store write #k for every k, then commit is re-run; the branch iteration order inside Commit is an explored choice (build-time overlay of the map range). The real transaction package runs on the real SQL ref store and an object store behind wrappers that number all mutating calls in one sequence. All-or-nothing is a statement about every failure point of the per-branch loop, which is exactly what is enumerated.",
          "Trusted: the fault wrappers (atomic store calls; a crash is death between two calls); the invariant checker (duplicates, committed => all moved, logs, refusal of double commit / discard-after-commit). After a (possibly partial) discard the staged set is allowed to have shrunk.",
          "DESIGN.md §4 C14"),
+ "C09": ("exploration",
+         "bounded-exhaustive enumeration of (server, client) repository pairs over a common universe, driving the real client sessions over loopback HTTP against a reference server built from the repository's own components",
+         "Every commit DAG up to 3 (thorough 4) nodes, every pair of ancestor-closed sets held by server and client (so ahead / behind / diverged / unrelated / equal all arise), every depth 0..2, and bounded deviations over table sharing, ref placement, shallow state, haves per round trip (1 forces one round trip per commit), server-side table negotiation and packfile size (1 byte forces one packfile per object) are run through the real UploadPackSession / ReceivePackSession against refsrv. After each exchange the receiving store is checked for full history, tables within depth passing the structural oracle, byte-identical objects, and a repeated exchange that transfers nothing.",
+         "Trusted: refsrv (300 lines of HTTP glue around ClosedSetsFinder, ObjectSender, ObjectReceiver; no policy of its own) - the server half is not part of the repository; map-backed ref stores. One known finding (push to a shallow remote).",
+         "DESIGN.md §4 C09"),
 }
 
 NOT_YET = {}
